@@ -18,6 +18,8 @@ def handleModel (args : List String) : String :=
   match args with
   | ["StrConcat", a, b] => match parseS a, parseS b with
     | some a, some b => rs (Model.StrConcat [a, b]) | _, _ => "bad-arg"
+  | ["StrConcat3", a, b, c] => match parseS a, parseS b, parseS c with
+    | some a, some b, some c => rs (Model.StrConcat [a, b, c]) | _, _, _ => "bad-arg"
   | ["StrSubstr", i, n, s] => match i.toNat?, n.toNat?, parseS s with
     | some i, some n, some s => rs (Model.StrSubstr i n s) | _, _, _ => "bad-arg"
   | ["StrReplace", s, t, r] => match parseS s, parseS t, parseS r with
@@ -47,6 +49,8 @@ def handleSpec (args : List String) : String :=
   match args with
   | ["StrConcat", a, b] => match parseS a, parseS b with
     | some a, some b => rs (Spec.concat a b) | _, _ => "bad-arg"
+  | ["StrConcat3", a, b, c] => match parseS a, parseS b, parseS c with
+    | some a, some b, some c => rs (Spec.concat a (Spec.concat b c)) | _, _, _ => "bad-arg"
   | ["StrSubstr", i, n, s] => match i.toNat?, n.toNat?, parseS s with
     | some i, some n, some s => rs (Spec.substr s i n) | _, _, _ => "bad-arg"
   | ["StrReplace", s, t, r] => match parseS s, parseS t, parseS r with
